@@ -107,7 +107,7 @@ class StatementSplitter:
             # keywords it's also to change some rules, like this splitting
             # rule.
             if (self.level <= 0 and ttype is T.Punctuation and value == ';') \
-                    or (ttype is T.Keyword and value.split()[0] == 'GO'):
+                    or (ttype is T.Keyword and value.split()[0].upper() == 'GO'):
                 self.consume_ws = True
 
         # Yield pending statement (if any)
